@@ -119,6 +119,11 @@ func runC07(t *testing.T, c *choice.Stream, r *Result, opt RunOpt) {
 	case "block", "block-auto":
 		cols := DrawCols(c, "cols", 3, 2)
 		rows := gen.DrawRows(c, "rows")
+		for _, cs := range cols {
+			if cs.RT.Kind == refproto.KLowCard && c.Bool("lc.wide", 1, 2) {
+				rows = 260 + c.Draw("lc.rows", 400) // enough rows for a dictionary with keys wider than one byte
+			}
+		}
 		if kind == "block-auto" {
 			for _, cs := range cols {
 				// inference must accept the type string the library's own column reports
@@ -179,6 +184,9 @@ func runC07(t *testing.T, c *choice.Stream, r *Result, opt RunOpt) {
 	case "column":
 		cs := DrawCols(c, "col", 1, 2)[0]
 		rows := 1 + gen.DrawRows(c, "rows")
+		if cs.RT.Kind == refproto.KLowCard && c.Bool("lc.wide", 1, 2) {
+			rows = 260 + c.Draw("lc.rows", 400)
+		}
 		col, err := gen.NewCol(cs.Type)
 		if err != nil {
 			panic(err)
